@@ -21,7 +21,7 @@ def contDid : Cont → List Nat
 
 /-- every Deferred a state still owes an answer -/
 def pend (s : St) : List Nat :=
-  s.cobj.flatMap cpend ++ s.sobj.flatMap spend ++ s.pending.flatMap contDid ++ s.targets.map (·.2.2)
+  s.cobj.flatMap cpend ++ s.sobj.flatMap spend ++ s.pending.flatMap contDid ++ s.targets.map (·.2.2) ++ s.viaWait.map (·.2.1)
 
 def fired (os : List Out) : List Nat := os.filterMap fun o => match o with | .fire d _ => some d | _ => none
 
@@ -224,6 +224,69 @@ theorem Le.of_pend_eq {s s' : St} (h : pend s' = pend s) : Le s s' [] [] := by
 
 theorem Le.with_circuits (s : St) (cs : List (Nat × Nat)) : Le s { s with circuits := cs } [] [] := Le.of_pend_eq rfl
 
+/-! ### connections waiting for a circuit to be BUILT -/
+
+theorem count_addTarget (ts : List ((Text × Nat) × (Nat × Nat))) (key : Text × Nat) (o d x : Nat) :
+    ((addTarget ts key o d).map (·.2.2)).count x ≤ (ts.map (·.2.2)).count x + [d].count x := by
+  unfold addTarget
+  have hsub : ((ts.filter fun e => e.1 ≠ key).map (·.2.2)).count x ≤ (ts.map (·.2.2)).count x :=
+    (List.Sublist.map _ List.filter_sublist).count_le _
+  simp only [List.map_append, List.map_cons, List.map_nil, List.count_append]
+  omega
+
+theorem count_foldl_addTarget (mine : List (Nat × (Nat × (Text × Nat)))) (ts : List ((Text × Nat) × (Nat × Nat))) (o x : Nat) :
+    ((mine.foldl (fun ts w => addTarget ts w.2.2 o w.2.1) ts).map (·.2.2)).count x ≤ (ts.map (·.2.2)).count x + (mine.map (·.2.1)).count x := by
+  induction mine generalizing ts with
+  | nil => simp
+  | cons w rest ih =>
+    simp only [List.foldl_cons, List.map_cons, List.count_cons]
+    have h1 := ih (addTarget ts w.2.2 o w.2.1)
+    have h2 := count_addTarget ts w.2.2 o w.2.1 x
+    simp only [List.count_cons, List.count_nil] at h2
+    omega
+
+theorem count_filter_split {α : Type} (l : List α) (p : α → Bool) (g : α → Nat) (x : Nat) :
+    (l.map g).count x = ((l.filter p).map g).count x + ((l.filter fun a => !p a).map g).count x := by
+  induction l with
+  | nil => rfl
+  | cons a t ih =>
+    by_cases h : p a = true
+    · simp only [List.filter_cons, h, if_true, Bool.not_true, Bool.false_eq_true, if_false, List.map_cons, List.count_cons, ih]; omega
+    · have h' : p a = false := by simpa using h
+      simp only [List.filter_cons, h', Bool.false_eq_true, if_false, Bool.not_false, if_true, List.map_cons, List.count_cons, ih]; omega
+
+theorem registerWaiting_le (s : St) (o : Nat) : Le s (registerWaiting s o) [] [] := by
+  intro x
+  have h1 := count_foldl_addTarget (s.viaWait.filter (·.1 = o)) s.targets o x
+  have h2 := count_filter_split s.viaWait (fun w => decide (w.1 = o)) (·.2.1) x
+  have h3 : (s.viaWait.filter fun a => !decide (a.1 = o)) = s.viaWait.filter (fun w => decide (w.1 ≠ o)) := by
+    congr 1; funext a; simp
+  rw [h3] at h2
+  simp only [registerWaiting, pend, List.count_append, List.count_nil] at h1 h2 ⊢
+  omega
+
+/-- the connections waiting for circuit `o` are dropped and told so -/
+theorem dropWaiting_le (s : St) (o : Nat) (cs : List (Nat × Nat)) :
+    Le s { s with circuits := cs, viaWait := s.viaWait.filter (·.1 ≠ o) } ((s.viaWait.filter (·.1 = o)).map (·.2.1)) [] := by
+  intro x
+  have h2 := count_filter_split s.viaWait (fun w => decide (w.1 = o)) (·.2.1) x
+  have h3 : (s.viaWait.filter fun a => !decide (a.1 = o)) = s.viaWait.filter (fun w => decide (w.1 ≠ o)) := by
+    congr 1; funext a; simp
+  rw [h3] at h2
+  simp only [pend, List.count_append, List.count_nil] at h2 ⊢
+  omega
+
+theorem fired_map_fireW (l : List (Nat × (Nat × (Text × Nat)))) (b : Bool) : fired (l.map fun w => Out.fire w.2.1 b) = l.map (·.2.1) := by
+  induction l with
+  | nil => rfl
+  | cons a t ih => simp only [List.map_cons, fired, List.filterMap_cons] at ih ⊢; rw [ih]
+
+theorem count_fired_mergeFires (a b : List Out) (d : Nat) :
+    (fired (mergeFires a b)).count d = (fired a).count d + (fired b).count d := by
+  have := ((mergeFires_perm a b).filterMap (fun o => match o with | Out.fire d _ => some d | _ => none)).count_eq d
+  unfold fired
+  rw [this, List.filterMap_append, List.count_append]
+
 /-- combining: append the fired lists, nothing fresh -/
 theorem Le.then {a b c : St} {f1 f2 : List Nat} (h1 : Le a b f1 []) (h2 : Le b c f2 []) : Le a c (f1 ++ f2) [] := by
   have := h1.trans h2
@@ -279,21 +342,27 @@ theorem circFinish_le (s : St) (o cid : Nat) (args : List Text) (quit : List Nat
   split
   · have h1 := notifyC_le s o quit (str "built") [] []
     have h2 := builtFire_le (notifyC s o quit (str "built") [] []).1 o true
-    have := h1.then h2
+    have h3 := registerWaiting_le (setC (notifyC s o quit (str "built") [] []).1 o
+      { getC (notifyC s o quit (str "built") [] []).1 o with built := ((getC (notifyC s o quit (str "built") [] []).1 o).built.fire true).1 }) o
+    have := (h1.then h2).then h3
     simpa [fired_append] using this
   · split
     · have h1 := circClosing_le s o
       have h2 := builtFire_le (circClosing s o).1 o false
-      have h3 := Le.with_circuits (setC (circClosing s o).1 o { getC (circClosing s o).1 o with built := ((getC (circClosing s o).1 o).built.fire false).1 })
-        (adel (circClosing s o).1.circuits cid)
+      have h3 := dropWaiting_le (setC (circClosing s o).1 o { getC (circClosing s o).1 o with built := ((getC (circClosing s o).1 o).built.fire false).1 })
+        o (adel (circClosing s o).1.circuits cid)
       have h4 := notifyC_le { setC (circClosing s o).1 o { getC (circClosing s o).1 o with built := ((getC (circClosing s o).1 o).built.fire false).1 } with
-          circuits := adel (circClosing s o).1.circuits cid } o quit
+          circuits := adel (circClosing s o).1.circuits cid, viaWait := (circClosing s o).1.viaWait.filter (·.1 ≠ o) } o quit
         (if args.getD 1 [] = str "CLOSED" then str "closed" else str "failed") [] (createFlags (findKeywords args))
       have := ((h1.then h2).then h3).then h4
       have hc : fired (if (args.getD 1 [] = str "FAILED" && !(getC s o).streams.isEmpty) = true then [Out.err (str "failed-with-streams")] else []) = [] := by
         split <;> rfl
       simp only [fired_append, hc, List.nil_append, List.append_nil, List.append_assoc] at this ⊢
-      exact this
+      intro d
+      have hd := this d
+      have hsv : ∀ (s : St) (o : Nat) (c : Circ), (setC s o c).viaWait = s.viaWait := fun _ _ _ => rfl
+      simp only [List.count_append, count_fired_mergeFires, fired_map_fireW, hsv, List.count_nil] at hd ⊢
+      omega
     · exact Le.refl s
 
 theorem circUpdate_le (s : St) (o cid : Nat) (args : List Text) (quit : List Nat) :
@@ -890,14 +959,16 @@ theorem step_via (s : St) (o : Nat) (addr : Text) (port : Nat) : StepOk s (step 
   · split
     · refine Or.inr ⟨?_, rfl⟩
       intro d
-      have hsub : ((s.targets.filter fun e => e.1 ≠ (addr, port)).map (·.2.2)).count d ≤ (s.targets.map (·.2.2)).count d :=
-        (List.Sublist.map _ List.filter_sublist).count_le _
-      simp only [pend, List.map_append, List.map_cons, List.map_nil, List.count_append, fired, List.filterMap_cons, List.filterMap_nil,
-        List.count_nil] at hsub ⊢
+      have hsub := count_addTarget s.targets (addr, port) o s.nextD d
+      simp only [pend, List.count_append, fired, List.filterMap_cons, List.filterMap_nil, List.count_nil] at hsub ⊢
       omega
     · split
       · exact Or.inr ⟨Le.fire_fresh s _ rfl _, rfl⟩
-      · exact Or.inl ⟨Le.refl s, rfl⟩
+      · refine Or.inr ⟨?_, rfl⟩
+        intro d
+        simp only [pend, List.map_append, List.map_cons, List.map_nil, List.count_append, fired, List.filterMap_cons, List.filterMap_nil,
+          List.count_nil]
+        omega
 
 theorem rekey_count (key : Text × Nat) (g : Nat) (ts : List ((Text × Nat) × (Nat × Nat))) (d : Nat)
     (ts' : List ((Text × Nat) × (Nat × Nat))) (h : rekey key g ts = some (d, ts')) (x : Nat) :
